@@ -224,7 +224,7 @@ def _replay_plsample(size):
 
 
 # ---------------------------------------------------------------- powerlaw_mle_alpha (SMT)
-def _body_mle(n, method):
+def _body_mle(n, method, with_kwargs=False):
     def body(E):
         import numpy as np
         import z3
@@ -259,13 +259,27 @@ def _body_mle(n, method):
         scipy.optimize.minimize_scalar = fake_min
         scipy.special.zeta = lambda a, q: Sym(E, zeta(a.term if isinstance(a, Sym) else z3.RealVal(a), q.term if isinstance(q, Sym) else z3.RealVal(q)))
         try:
-            got = stats.powerlaw_mle_alpha(np.array(cs, dtype=object), cmin=cmin, method="exact")
+            if with_kwargs:
+                # "within its bounds": options given by the caller are passed on and take precedence over the documented defaults
+                lo, hi, tol = E.real("lo", lo=1), E.real("hi", lo=1), E.real("tol", lo=0)
+                E.assume(lo.term < hi.term)
+                caller = dict(bounds=(lo, hi), options={"xatol": tol})
+                got = stats.powerlaw_mle_alpha(np.array(cs, dtype=object), cmin=cmin, method="exact", **caller)
+                want_kw = dict(bounds=(lo, hi), method="bounded", options={"xatol": tol})
+            else:
+                got = stats.powerlaw_mle_alpha(np.array(cs, dtype=object), cmin=cmin, method="exact")
+                want_kw = dict(bounds=[1.5, 4.5], method="bounded")
             a = E.real("a_probe", lo=1)
             val = rec["fun"](a)
         finally:
             scipy.optimize.minimize_scalar, scipy.special.zeta = old_m, old_z
-        if got != "ARGMAX" or rec["kw"] != dict(bounds=[1.5, 4.5], method="bounded"):
-            return False, f"optimiser result not returned / options {rec.get('kw')}"
+        kw = rec["kw"]
+        same = set(kw) == set(want_kw) and all(kw[k] is want_kw[k] or (not with_kwargs and kw[k] == want_kw[k]) or
+                                               (k == "options" and list(kw[k]) == ["xatol"] and kw[k]["xatol"] is want_kw[k]["xatol"]) or
+                                               (k == "bounds" and len(kw[k]) == 2 and kw[k][0] is want_kw[k][0] and kw[k][1] is want_kw[k][1]) or
+                                               (k == "method" and kw[k] == "bounded") for k in kw)
+        if got != "ARGMAX" or not same:
+            return False, f"optimiser result not returned / options handed to minimize_scalar {sorted(kw)}: bounds={kw.get('bounds')!r}"
         kept = [c for c in cs if E.decide(c.term >= cmin.term)]
         slog = z3.Sum([log(c.term) for c in kept]) if len(kept) > 1 else (log(kept[0].term) if kept else z3.RealVal(0))
         loglik = -z3.RealVal(len(kept)) * log(zeta(a.term, cmin.term)) - a.term * slog
@@ -273,7 +287,7 @@ def _body_mle(n, method):
     return body
 
 
-def _replay_mle(n, method):
+def _replay_mle(n, method, with_kwargs=False):
     def replay(inputs):
         import math
         import numpy as np
@@ -282,8 +296,37 @@ def _replay_mle(n, method):
         cs = [float(from_model(inputs[f"c{i}"])) for i in range(n)]
         cmin = float(from_model(inputs["cmin"]))
         kept = [c for c in cs if c >= cmin]
-        if method == "exact":
+        if method == "exact" and not with_kwargs:
             return True, "wiring claim only"
+        if method == "exact":
+            # real optimiser, caller's interval: the estimate lies inside it and no grid point of it has a visibly larger likelihood
+            import scipy.special
+            lo, hi = float(from_model(inputs["lo"])), float(from_model(inputs["hi"]))
+            lo, hi = max(lo, 1.05), min(max(hi, lo + 0.5, 1.55), 12.0)
+            ints = [max(1, int(round(c))) for c in cs] or [1]
+            kept_i = [c for c in ints if c >= 1]
+
+            def ll(a):
+                return -len(kept_i) * math.log(scipy.special.zeta(a, 1)) - a * sum(math.log(c) for c in kept_i)
+            import scipy.optimize
+            seen = {}
+            real_min = scipy.optimize.minimize_scalar
+
+            def spy(fun, **kw):
+                seen.update(kw)
+                return real_min(fun, **kw)
+            scipy.optimize.minimize_scalar = spy
+            try:
+                got = float(stats.powerlaw_mle_alpha(ints, cmin=1, method="exact", bounds=(lo, hi), options={"xatol": 1e-7}))
+            finally:
+                scipy.optimize.minimize_scalar = real_min
+            if tuple(seen.get("bounds", ())) != (lo, hi) or seen.get("options") != {"xatol": 1e-7} or seen.get("method") != "bounded":
+                return False, (f"powerlaw_mle_alpha(..., 'exact', bounds=({lo}, {hi}), options={{'xatol': 1e-7}}) handed "
+                               f"{ {k: seen[k] for k in sorted(seen)} } to scipy.optimize.minimize_scalar")
+            best = max(ll(lo + (hi - lo) * t / 400) for t in range(401))
+            ok = lo - 1e-6 <= got <= hi + 1e-6 and ll(got) >= best - 1e-3
+            return ok, (f"powerlaw_mle_alpha({ints}, cmin=1, 'exact', bounds=({lo}, {hi})) = {got!r}: log-likelihood {ll(got)!r}, "
+                        f"best on a 401-point grid of the caller's interval {best!r}")
         base = cmin if method == "simple" else cmin - 0.5
         den = sum(math.log(c / base) for c in kept)
         try:
@@ -315,4 +358,7 @@ def conditions(tier):
         for n in (1, 2, 3) + ((4,) if T else ()):
             out.append(Condition(f"C17/powerlaw_mle_alpha/{method}/n={n}", _body_mle(n, method), _replay_mle(n, method), budget=300, engine="SMT",
                                  bounds=f"{n} symbolic counts >= 1, symbolic cmin >= 1, method {method}"))
+    for n in (1, 2) + ((3,) if T else ()):
+        out.append(Condition(f"C17/powerlaw_mle_alpha/exact-caller-options/n={n}", _body_mle(n, "exact", True), _replay_mle(n, "exact", True), budget=300,
+                             engine="SMT", bounds=f"{n} symbolic counts, symbolic cmin, caller-supplied symbolic bounds lo < hi and optimiser options"))
     return out
